@@ -127,6 +127,8 @@ LOSSES = {
     "first-k-requests-unsent": (lambda a: (lambda n, t, c, p: "rq" if n < a else None), 50),
     "requests-unsent-early": (lambda a: (lambda n, t, c, p: "rq" if t < a * 3600 else None), 50),
 }
+# exactly one reply is lost, once: the reply to the first request with this (code, payload) -- a fault at every point of the first round
+LOSSES["one-reply-lost"] = (lambda a: (lambda n, t, c, p, st={"done": False}: (st.__setitem__("done", True) or "rp") if (c, p) == tuple(a) and not st["done"] else None), 50)
 LOSS_ARGS = {"none": [0], "first-k-topology-replies": [1, 3, 8, 15], "every-mth-reply": [2, 3, 5], "all-0005-replies-early": [0.01, 0.2, 1.0],
              "everything-lost-early": [0.01, 0.5, 7.0], "zone-replies-lost-early": [0.02, 0.5, 2.0],
              "first-k-requests-unsent": [1, 4, 8, 12, 20], "requests-unsent-early": [0.002, 0.01, 0.2]}
@@ -174,7 +176,7 @@ def discovery_job(job):
         import traceback  # noqa: PLC0415
         return {"error": f"{type(err).__name__}: {err}", "tb": traceback.format_exc()[-600:]}
     topo = sorted({(w[3], w[4]) for w in obs["writes"] if w[1] == "RQ" and w[2] == disc.CTL and w[3] in ("0005", "000C")})
-    return {"snaps": obs["snaps"], "errs": obs["errs"][:5], "n_writes": len(obs["writes"]), "topology_rqs": topo}
+    return {"snaps": obs["snaps"], "errs": obs["errs"][:5], "n_writes": len(obs["writes"]), "topology_rqs": topo, "dead_pollers": obs.get("dead_pollers", [])}
 
 
 def below(a, b):
@@ -274,12 +276,24 @@ def run(ctx: Ctx) -> None:
                          "02": {"class": "radiator_valve", "actuators": ["04:100002"], "sensor": disc.CTL}}}
     jobs.append((witness, "none", 0, 0.3))
     n_b = 60 if thorough else 14
-    kinds = [k for k in LOSSES if k != "none"]
+    kinds = [k for k in LOSSES if k not in ("none", "one-reply-lost")]
     for j in range(n_b):
         cfg = disc.gen_cfg(rng, nzones=rng.choice([0, 1, 2, 3, 5, 8, 12]) if j % 3 else None, max_act=rng.choice([1, 3, 8]), ctl_sensor_once=True)
         kind = "none" if j % 4 == 0 else kinds[j % len(kinds)]
         arg = rng.choice(LOSS_ARGS[kind])
         jobs.append((cfg, kind, arg, LOSSES[kind][1]))
+    # the single-loss sweep: for every topology request of the first round of a configuration (zones with a sensor AND actuators, DHW, appliance),
+    # a run in which only the reply to that request is lost, once
+    for _ in range(3 if thorough else 1):
+        cfg = disc.gen_cfg(rng, nzones=rng.choice([2, 3]) if not thorough else rng.choice([2, 3, 5]), max_act=2, ctl_sensor_once=True)
+        for j, z in enumerate(cfg["zones"].values()):
+            z.setdefault("sensor", f"34:{100500 + j:06d}")
+            if not z.get("actuators"):
+                z["actuators"] = [f"{'04' if z['class'] == 'radiator_valve' else '13'}:{100600 + j:06d}"]
+        first = disc.run_discovery(cfg, None, 0.05)
+        rqs = sorted({(w[3], w[4]) for w in first["writes"] if w[1] == "RQ" and w[2] == disc.CTL and w[3] in ("0005", "000C")})
+        for rq in rqs:
+            jobs.append((cfg, "one-reply-lost", list(rq), LOSSES["one-reply-lost"][1]))
     with mp.get_context("fork").Pool(min(common.NPROC, 12)) as pool:
         results = pool.map(discovery_job, jobs, chunksize=1)
     req_cases = []
@@ -289,6 +303,9 @@ def run(ctx: Ctx) -> None:
         if "error" in r:
             ctx.violation(f"discovery-run-raises:{r['error'].split(':')[0]}", r["error"] + " " + r.get("tb", ""), case, "configuration")
             continue
+        for ent, cls, msg in r.get("dead_pollers", []):
+            ctx.violation(f"discovery-poller-died:{cls}", f"the discovery poller of {ent} ended with {cls}: {msg} -- that entity never asks again, so what is missing is never filled in",
+                          {**case, "entity": ent, "error": msg}, "fault-sequence")
         exp = disc.expected(cfg)
         ctl_twice = sum(1 for z in cfg["zones"].values() if z.get("sensor") == disc.CTL) > 1
         prev = {}
